@@ -43,6 +43,10 @@ class SoapClientPool:
                 self._soap_clients[netloc] = entry
             elif usr_ident not in entry.usr_idents:
                 entry.usr_idents.append(usr_ident)
+                if entry.soap_client.is_closed():
+                    # The connection of a previous user is closed (e.g. after a connection error, the soap client
+                    # then refuses to re-connect implicitly). The new user starts with a new soap client.
+                    entry.soap_client = self._soap_client_factory(netloc, accepted_encodings)
             return entry.soap_client
 
     def forget_usr(self, netloc: str, usr_ident: Any) -> None:
